@@ -321,3 +321,30 @@ void *memcpy(void *dst, const void *src, size_t n)
     return dst;
 }
 #endif
+
+/* ---- further <string.h> functions (no CBMC built-in body) --------------------------------------- */
+size_t strspn(const char *s, const char *accept)
+{
+    size_t i = 0;
+    while (s[i] != '\0' && v_in_set(s[i], accept)) i++;
+    return i;
+}
+size_t strcspn(const char *s, const char *reject)
+{
+    size_t i = 0;
+    while (s[i] != '\0' && !v_in_set(s[i], reject)) i++;
+    return i;
+}
+char *strpbrk(const char *s, const char *accept)
+{
+    size_t i = strcspn(s, accept);
+    return (s[i] != '\0') ? (char *)(s + i) : NULL;
+}
+char *strsep(char **stringp, const char *delim)
+{
+    char *s = *stringp;
+    if (s == NULL) return NULL;
+    size_t i = strcspn(s, delim);
+    if (s[i] != '\0') { s[i] = '\0'; *stringp = s + i + 1; } else *stringp = NULL;
+    return s;
+}
